@@ -454,3 +454,34 @@ def inline_deep(F, t, depth=12, root=True):
     if not isinstance(t2, tuple) or not t2:
         return t2
     return tuple(inline_deep(F, x, depth - 1, False) if isinstance(x, tuple) else x for x in t2)
+
+
+def closure_return_values(F, clo_path, env):
+    """TABLE: set of boolean values a closure body can return under the atom valuation env (stripped term -> value)."""
+    cb = F.closure(clo_path)
+    if cb is None:
+        return None, None
+    tb = TermBuilder(F, cb)
+    reach = reach_under(cb, tb, env)
+    vals = set()
+    for bi, si, t in ret_defs(tb):
+        if bi not in reach:
+            continue
+        v = eval_bool(t, env)
+        vals.add(v)
+    return vals, tb
+
+
+def closure_atoms(F, clo_path, pred):
+    cb = F.closure(clo_path)
+    if cb is None:
+        return []
+    tb = TermBuilder(F, cb)
+    out = find_terms(cb, tb, pred)
+    for bi, si, t in ret_defs(tb):
+        for x in walk(t):
+            if isinstance(x, tuple) and x and isinstance(x[0], str) and pred(x):
+                sx = strip_sites(x)
+                if sx not in out:
+                    out.append(sx)
+    return out
